@@ -9,7 +9,14 @@
 //!                                                      d:<key> = delete_message, s:<key>:<msg> = set_message); then
 //!                                                      serialize and re-parse
 //!   c07.* rtd ... (as rt)                              same run as rt; prints `ok parsed dirty=<0|1>` | `ok unparsed` only
+//!   c06.* sec <S|U> <L|B> <title> <k:m,..|~> <dmg,dmg,..|~>
+//!                                                      "second use": as rt, but before the round trip damaged copies of the
+//!                                                      image (tr:<k> | w:<pos>:<u32> | b:<pos>:<byte> | be:<k-from-end>:<byte>) are parsed in the same
+//!                                                      process and thread; the line ends with ` pre=<o|e per damage>`
 //!   c07.* new <S|U> <L|B>                              stateful: first line creates the archive
+//!   c07.* frombytes|fromarchive <S|U> <L|B> <title> <k:m,..|~>
+//!                                                      first line: the archive is built, serialized and obtained through
+//!                                                      `from_bytes` / `BinArchive::from_bytes` + `from_archive`
 //!   c07.* set <k> <m> | del <k> | has <k> | get <k> | title <t> | setget <k>
 //! Strings are hex of UTF-8 (`-` = empty), lists are comma separated (`~` = empty list).
 //!
@@ -99,8 +106,47 @@ fn parse_pairs(s: &str) -> Vec<(String, String)> {
 // run
 // ------------------------------------------------------------------------------------------------
 
+/// Damage `bytes` as described by one `sec` damage item (`tr:<k>` drop the last k bytes, `w:<pos>:<v>` store the
+/// u32 `v` at `pos` in the archive's byte order, `b:<pos>:<v>` store the byte `v` at `pos`, `be:<k>:<v>` store
+/// the byte `v` at `len-1-k`).
+fn damage(bytes: &[u8], item: &str, big: bool) -> Vec<u8> {
+    let mut d = bytes.to_vec();
+    let p: Vec<&str> = item.split(':').collect();
+    match p[0] {
+        "tr" => {
+            let k: usize = p[1].parse().unwrap();
+            d.truncate(d.len().saturating_sub(k));
+        }
+        "w" => {
+            let pos: usize = p[1].parse().unwrap();
+            let v: u32 = p[2].parse().unwrap();
+            if pos + 4 <= d.len() {
+                let w = if big { v.to_be_bytes() } else { v.to_le_bytes() };
+                d[pos..pos + 4].copy_from_slice(&w);
+            }
+        }
+        "b" => {
+            let pos: usize = p[1].parse().unwrap();
+            if pos < d.len() {
+                d[pos] = p[2].parse().unwrap();
+            }
+        }
+        "be" => {
+            // byte counted from the end of the image
+            let k: usize = p[1].parse().unwrap();
+            if k < d.len() {
+                let pos = d.len() - 1 - k;
+                d[pos] = p[2].parse().unwrap();
+            }
+        }
+        _ => {}
+    }
+    d
+}
+
 fn run_rt(f: &[&str]) -> String {
     let dirty_only = f[1] == "rtd";
+    let second_use = f[1] == "sec";
     let (fmt, endian) = (fmt_of(f[2]), endian_of(f[3]));
     let title = unhexs(f[4]);
     let entries: Vec<(String, String)> = parse_pairs(f[5]).into_iter().map(|(k, m)| (unhexs(&k), unhexs(&m))).collect();
@@ -116,6 +162,19 @@ fn run_rt(f: &[&str]) -> String {
             Err(_) if dirty_only => return "ok unparsed".to_string(),
             Err(e) => return format!("err {}", ta_class(&e)),
         };
+        // `sec`: first parse damaged copies of the image (mostly failing, in this same process and
+        // thread), then do the ordinary round trip, which must not be affected by what came before
+        let mut pre = String::new();
+        if second_use && f[6] != "~" {
+            for item in f[6].split(',') {
+                let d = damage(&bytes, item, f[3] == "B");
+                pre.push(match TextArchive::from_bytes(&d, fmt, endian) {
+                    Ok(_) => 'o',
+                    Err(_) => 'e',
+                });
+            }
+        }
+        let pre = if second_use { format!(" pre={}", if pre.is_empty() { "-" } else { &pre }) } else { String::new() };
         if dirty_only {
             return match TextArchive::from_bytes(&bytes, fmt, endian) {
                 Ok(p) => format!("ok parsed dirty={}", p.is_dirty() as u8),
@@ -124,7 +183,7 @@ fn run_rt(f: &[&str]) -> String {
         }
         match TextArchive::from_bytes(&bytes, fmt, endian) {
             Ok(p) => format!(
-                "ok stored={} bytes={} parsed title={} entries={} reser={}",
+                "ok stored={} bytes={} parsed title={} entries={} reser={}{}",
                 stored,
                 hex(&bytes),
                 hexs(p.get_title()),
@@ -133,9 +192,10 @@ fn run_rt(f: &[&str]) -> String {
                     Ok(b2) if b2 == bytes => "same".to_string(),
                     Ok(_) => "diff".to_string(),
                     Err(e) => format!("err:{}", ta_class(&e)),
-                }
+                },
+                pre
             ),
-            Err(e) => format!("ok stored={} bytes={} parse-err {}", stored, hex(&bytes), ta_class(&e)),
+            Err(e) => format!("ok stored={} bytes={} parse-err {}{}", stored, hex(&bytes), ta_class(&e), pre),
         }
     });
     r.unwrap_or_else(|_| "panic".to_string())
@@ -228,13 +288,41 @@ fn run_c07(st: &mut super::State, f: &[&str]) -> String {
     if f[1] == "new" {
         st.any = Some(Box::new(TextArchive::new(fmt_of(f[2]), endian_of(f[3]))));
     }
+    if f[1] == "frombytes" || f[1] == "fromarchive" {
+        // the other public constructors: build, serialize, then `from_bytes`, or
+        // `BinArchive::from_bytes` + `from_archive`
+        st.any = None;
+        let (fmt, endian) = (fmt_of(f[2]), endian_of(f[3]));
+        let title = unhexs(f[4]);
+        let entries: Vec<(String, String)> = parse_pairs(f[5]).into_iter().map(|(k, m)| (unhexs(&k), unhexs(&m))).collect();
+        let via_archive = f[1] == "fromarchive";
+        let built = no_panic(|| {
+            let mut t = TextArchive::new(fmt, endian);
+            t.set_title(title.clone());
+            for (k, m) in &entries {
+                t.set_message(k, m);
+            }
+            let bytes = t.serialize().map_err(|e| ta_class(&e).to_string())?;
+            if via_archive {
+                let bin = BinArchive::from_bytes(&bytes, endian).map_err(|e| ar_class(&e).to_string())?;
+                TextArchive::from_archive(&bin, fmt, endian).map_err(|e| ta_class(&e).to_string())
+            } else {
+                TextArchive::from_bytes(&bytes, fmt, endian).map_err(|e| ta_class(&e).to_string())
+            }
+        });
+        match built {
+            Ok(Ok(t)) => st.any = Some(Box::new(t)),
+            Ok(Err(_)) => return "err".to_string(),
+            Err(_) => return "panic".to_string(),
+        }
+    }
     let t: &mut TextArchive = match st.any.as_mut().and_then(|b| b.downcast_mut::<TextArchive>()) {
         Some(t) => t,
         None => return "bad-case".to_string(),
     };
     let r = no_panic(|| {
         let ret = match f[1] {
-            "new" => "unit".to_string(),
+            "new" | "frombytes" | "fromarchive" => "unit".to_string(),
             "set" => {
                 t.set_message(&unhexs(f[2]), &unhexs(f[3]));
                 "unit".to_string()
@@ -276,7 +364,7 @@ pub fn run_line(st: &mut super::State, line: &str) -> String {
         run_c07(st, &f)
     } else {
         match f[1] {
-            "rt" | "rtd" => run_rt(&f),
+            "rt" | "rtd" | "sec" => run_rt(&f),
             "hs" => run_hs(&f),
             "fa" => run_fa(&f),
             _ => "bad-case".to_string(),
@@ -540,6 +628,69 @@ fn gen_c06(rng: &mut Rng, tier: &str, lines: &mut Vec<String>) {
         }
         lines.push(hs_line(&mut n, f, e, &title, &entries, src, &ops));
     }
+    // --- second use: failing parses of damaged images (lost label terminator, truncated label table / data,
+    // over-declared counts, a bogus pointer entry, an unterminated last name) in the same process and thread,
+    // then the ordinary round trip, judged by the ordinary oracle
+    let sec_line = |n: &mut usize, f: &str, e: &str, title: &str, entries: &[(String, String)], dmg: &[String]| -> String {
+        let es: Vec<String> = entries.iter().map(|(k, m)| format!("{}:{}", hexs(k), hexs(m))).collect();
+        let l = format!(
+            "c06.{:06} sec {} {} {} {} {}",
+            *n,
+            f,
+            e,
+            hexs(title),
+            if es.is_empty() { "~".to_string() } else { es.join(",") },
+            if dmg.is_empty() { "~".to_string() } else { dmg.join(",") }
+        );
+        *n += 1;
+        l
+    };
+    let mids = vec![(s("MID_FIRST"), s("Hello")), (s("MID_SECOND"), s("")), (s("MID_THIRD"), s("Good\\nbye"))];
+    for (f, e) in combos {
+        for dmg in [
+            vec!["tr:1"],
+            vec!["be:0:65"],
+            vec!["tr:1", "tr:2", "tr:5"],
+            vec!["tr:11"],
+            vec!["tr:40"],
+            vec!["w:12:1000"],
+            vec!["w:4:100000"],
+            vec!["w:8:1"],
+            vec!["w:8:2", "tr:1"],
+            vec!["tr:3", "w:12:0", "be:0:66", "tr:1"],
+            vec![],
+        ] {
+            let d: Vec<String> = dmg.iter().map(|x| x.to_string()).collect();
+            lines.push(sec_line(&mut n, f, e, "Title", &mids, &d));
+        }
+        lines.push(sec_line(&mut n, f, e, "", &[(s("k"), s("m"))], &[s("tr:1")]));
+    }
+    let count = if thorough { 15000 } else { 1500 };
+    for _ in 0..count {
+        let (f, e) = *rng.pick(&combos);
+        let tl = rng.range(0, 5) as usize;
+        let title = sjis_string(rng, tl);
+        let ne = rng.range(1, 4) as usize;
+        let keys = distinct_keys(rng, ne);
+        let mut entries = Vec::new();
+        for k in keys {
+            let len = rng.range(0, 5) as usize;
+            entries.push((k, if f == "S" { sjis_string(rng, len) } else { uni_string(rng, len) }));
+        }
+        let nd = rng.range(1, 3);
+        let mut dmg = Vec::new();
+        for _ in 0..nd {
+            dmg.push(match rng.below(8) {
+                0..=2 => format!("tr:{}", rng.range(1, 3)),
+                3 => format!("tr:{}", rng.range(4, 40)),
+                4 => format!("be:{}:{}", rng.range(0, 6), rng.range(0x41, 0x5A)),
+                5 => format!("w:{}:{}", 4 * rng.range(1, 3), *rng.pick(&[0u32, 1, 5, 1000, 0x7fff_ffff])),
+                6 => format!("w:{}:{}", 0x20 + 4 * rng.range(0, 16), *rng.pick(&[0u32, 3, 0xffff, 0x7fff_ffff])),
+                _ => format!("b:{}:{}", rng.range(0x20, 0x60), rng.range(0, 255)),
+            });
+        }
+        lines.push(sec_line(&mut n, f, e, &title, &entries, &dmg));
+    }
     // --- from_archive on hand-built bin archives (reader model, not produced by the writer)
     let count = if thorough { 40000 } else { 6000 };
     for _ in 0..count {
@@ -698,14 +849,62 @@ fn gen_c07(rng: &mut Rng, tier: &str, lines: &mut Vec<String>) {
             }
         }
     }
+    // --- the parsing constructors (`from_bytes`, `BinArchive::from_bytes` + `from_archive`): the state right
+    // after construction (dirty flag!) and after every history of exactly 2 calls, all 4 format x endian combinations
+    for ctor in ["frombytes", "fromarchive"] {
+        for (ci, (cf, ce)) in [("S", "L"), ("S", "B"), ("U", "L"), ("U", "B")].iter().enumerate() {
+            let base = format!("{} {} {} {}:{},{}:{}", cf, ce, hexs("T"), hexs("a"), hexs("x"), hexs("b"), hexs("\\n"));
+            let id = format!("c07.{:07}", n);
+            n += 1;
+            lines.push(format!("{} {} {} {} {} ~", id, ctor, cf, ce, hexs("")));
+            for (i, o1) in ops.iter().enumerate() {
+                for (j, o2) in ops.iter().enumerate() {
+                    // all pairs for one combination per constructor, a third of them for the others
+                    if ci != 0 && (i + j) % 3 != ci - 1 {
+                        continue;
+                    }
+                    let id = format!("c07.{:07}", n);
+                    n += 1;
+                    lines.push(format!("{} {} {}", id, ctor, base));
+                    lines.push(format!("{} {}", id, o1));
+                    lines.push(format!("{} {}", id, o2));
+                }
+            }
+        }
+    }
     // --- random long histories over a 5-key pool, messages over {'\\','n','\n','x'}
-    let keys = ["a", "b", "c", "MID_キー", ""];
+    let keys = ["a", "b", "c", "MID_キイ", ""];
     let alpha = ['\\', 'n', '\n', 'x'];
     let count = if thorough { 4000 } else { 300 };
     for _ in 0..count {
         let id = format!("c07.{:07}", n);
         n += 1;
-        lines.push(format!("{} new {} {}", id, rng.pick(&["U", "S"]), rng.pick(&["L", "B"])));
+        let (cf, ce) = (*rng.pick(&["U", "S"]), *rng.pick(&["L", "B"]));
+        // every public constructor: new / from_bytes / from_archive
+        match rng.below(3) {
+            0 => lines.push(format!("{} new {} {}", id, cf, ce)),
+            c => {
+                let tl = rng.range(0, 3);
+                let t: String = (0..tl).map(|_| *rng.pick(&alpha)).collect();
+                let ne = rng.range(0, 3) as usize;
+                let es: Vec<String> = (0..ne)
+                    .map(|_| {
+                        let ml = rng.range(0, 4);
+                        let m: String = (0..ml).map(|_| *rng.pick(&alpha)).collect();
+                        format!("{}:{}", hexs(*rng.pick(&keys)), hexs(&m))
+                    })
+                    .collect();
+                lines.push(format!(
+                    "{} {} {} {} {} {}",
+                    id,
+                    if c == 1 { "frombytes" } else { "fromarchive" },
+                    cf,
+                    ce,
+                    hexs(&t),
+                    if es.is_empty() { "~".to_string() } else { es.join(",") }
+                ));
+            }
+        }
         let len = rng.range(1, 60);
         let nk = rng.range(1, 5) as usize;
         for _ in 0..len {
